@@ -171,6 +171,8 @@ def explicit_panics(prog, body, seen=None, depth=0):
     for bb, t in body.calls():
         f = t.get("f") or ""
         nm = t.get("name")
+        if any(str(m).startswith("debug_assert") for m in t.get("macros", ())):
+            continue   # compiled out of release builds; in debug builds it documents an invariant, it is not an input-dependent panic path
         if f.startswith(("core::panicking::", "std::rt::begin_panic", "core::option::expect_failed", "core::result::unwrap_failed", "core::option::unwrap_failed")) or \
                 (nm in ("unwrap", "expect", "unwrap_unchecked", "expect_err", "unwrap_err") and f.startswith(("core::option::Option", "core::result::Result"))):
             out.append((body.path, body.loc(bb), nm or f.rsplit("::", 1)[-1]))
